@@ -17,12 +17,9 @@
   `HomogeneousTransform.reset_parameters` writes `[I | 0]` (5a1bee8); F-06b `MultiLevelTransform.tensor()` of linear
   members is `Σ Aᵢ − (n−1)·I | Σ tᵢ`, computed out of place (23e4cf3); F-20a `CompositeTransform.disp` maps the points
   of a foreign grid with `decimals=None` (1b0b194); F-08a `as_homogeneous_matrix` accepts `(N, D, 1)` (8afe377).
-  Places where the current code still does not do what property C06 states:
-    * `SpatialTransform.disp(grid)` of a (non-composite) linear transform applies the matrix, which is
-      expressed in the cube of the transform's own grid, to the cube coordinates of `grid`;
-    * `SpatialTransform.disp(grid)` of a non-rigid transform converts the vectors between the *same named*
-      axes of the two grids although the result is labelled with the axes of `grid`;
-    * `ImageTransformer.forward` always evaluates the transform with `grid=True`.
+  F-06e base-class `disp(grid)` of a linear transform conjugates the matrix through the grid maps when `grid` has another
+  domain (eb11384); F-06g non-rigid `disp(grid)` converts the sampled vectors to the cube axes of `grid` when the
+  `align_corners` flags differ (8e0bb59); F-06f `ImageTransformer.forward` passes `grid=self._grid_is_lattice` (c2e2ce2).
   Squashed parameters (`tanh(p)·π`, `exp(tanh(p−1))`, `tan(…)`, `cos`, `sin`) are passed in as VALUES.
   Everything is per batch element (batch broadcasting of tensors is property C08's business).
 -/
@@ -315,10 +312,9 @@ def transformPoints (T : Vec d α → Vec d α) (tg : Grid d α) (grid : Grid d 
   transformPointsWith T (grid.transformSel axes tg (transformAxes tg) same₁)
     (tg.transformSel (transformAxes tg) toGrid toAxes same₂) x
 
-/-- flow.py:affine_flow @21-55 as called by base.py:SpatialTransform.disp @321-323 for a linear
-    transform: `A.transform_points(matrix, grid.coords()) − grid.coords()` — the matrix is applied to
-    the normalised coordinates of `grid` (its own `align_corners`) directly. -/
-def dispLinear (h : H d α) (gridAc : Bool) (gridN : Fin d → Nat) (j : Vec d α) : Vec d α :=
+/-- flow.py:affine_flow @21-55: `A.transform_points(matrix, grid.coords()) − grid.coords()` — the matrix applied to the
+    normalised coordinates of `grid` (its own `align_corners`) directly. -/
+def affineFlowAt (h : H d α) (gridAc : Bool) (gridN : Fin d → Nat) (j : Vec d α) : Vec d α :=
   let x : Vec d α := fun i => coordAt (gridN i) gridAc (j i)
   (h.apply x).sub x
 
@@ -340,29 +336,50 @@ def dispComposite (T : Vec d α → Vec d α) (tg grid : Grid d α) (gridN : Fin
     (j : Vec d α) : Vec d α :=
   dispCompositeWith T grid.alignCorners gridN (dispCompositeMaps tg grid sameDomain) j
 
+/-- base.py:SpatialTransform.disp @321-332 for a linear transform with tensor `h`:
+    `grid.same_domain_as(self.grid())` → `affine_flow(h, grid)`; otherwise the points of `grid` are mapped to the cube of
+    the transform's grid (`decimals=None`), the matrix is applied, and the result is mapped back — the same recipe (and the
+    same grid maps, `dispCompositeMaps`) as `CompositeTransform.disp`. -/
+def dispLinearWith (h : H d α) (gridAc : Bool) (gridN : Fin d → Nat) (maps : Option (H d α × H d α)) (j : Vec d α) :
+    Vec d α :=
+  match maps with
+  | none => affineFlowAt h gridAc gridN j
+  | some (toT, fromT) =>
+      let x : Vec d α := fun i => coordAt (gridN i) gridAc (j i)
+      (fromT.apply (h.apply (toT.apply x))).sub x
+
+def dispLinear (h : H d α) (tg grid : Grid d α) (gridN : Fin d → Nat) (sameDomain : Bool) (j : Vec d α) : Vec d α :=
+  dispLinearWith h grid.alignCorners gridN (dispCompositeMaps tg grid sameDomain) j
+
 def dispNonRigidWith (ac gridAc : Bool) (n gridN : Fin d → Nat) (u : VField d α) (sameGrid sameFlowGrid : Bool)
-    (toFlow vecBack : H d α) (rnd : Vec d α → Vec d α) (pad : Padding) (j : Fin d → Nat) : Vec d α :=
+    (toFlow vecBack : H d α) (conv : Vec d α → Vec d α) (rnd : Vec d α → Vec d α) (pad : Padding) (j : Fin d → Nat) :
+    Vec d α :=
   if sameGrid ∧ gridAc = ac then
     (fun c => interpolateLin ac n gridN (fun idx => u idx c) j)
-  else if sameFlowGrid then u (fun i => ((j i : Nat) : Int))
   else
-    let p : Vec d α := fun i => coordAt (gridN i) ac (((j i : Nat) : α))
-    let q := rnd (toFlow.apply p)
-    vecBack.applyVec (sampleVField ac pad n u q)
+    let v : Vec d α :=
+      if sameFlowGrid then u (fun i => ((j i : Nat) : Int))
+      else
+        let p : Vec d α := fun i => coordAt (gridN i) ac (((j i : Nat) : α))
+        let q := rnd (toFlow.apply p)
+        vecBack.applyVec (sampleVField ac pad n u q)
+    if gridAc = ac then v else conv v
 
-/-- base.py:SpatialTransform.disp @325-338 for a non-rigid transform with buffered field `u` of size `n`
+/-- base.py:SpatialTransform.disp @334-352 for a non-rigid transform with buffered field `u` of size `n`
     on `flowGrid = self.grid().reshape(u.shape[2:])`:
     * `grid == self.grid()` and equal `align_corners`: `u`, resized by `grid_reshape` if the shapes differ;
-    * otherwise `FlowFields(u, flowGrid).sample(grid)` (data/flow.py @247-290 on top of data/image.py
-      `ImageBatch.sample` @903-937): returned unchanged if `grid == flowGrid`, else sampled at the points of
-      `grid` (linear, zero padding: `ImageBatch.sample` defaults to `padding=None` = zeros) and every vector
-      mapped by `grid_transform_vectors(v, flowGrid, axes, grid, axes)` with `axes` the axes of the *transform*
-      (never WORLD, so this is `Grid.transform(axes, axes, to_grid, vectors=True)`). -/
+    * otherwise `FlowFields(u, flowGrid, axes=self.axes()).sample(grid)` (data/flow.py @247-290 on top of data/image.py
+      `ImageBatch.sample` @903-937): returned unchanged if `grid == flowGrid` (`Grid.__eq__` ignores `align_corners`), else
+      sampled at the points of `grid` (linear, zero padding: `ImageBatch.sample` defaults to `padding=None` = zeros) and every
+      vector mapped by `grid_transform_vectors(v, flowGrid, axes, grid, axes)` with `axes` the axes of the *transform*;
+      then, if the `align_corners` flags differ, `grid.transform_vectors(data, axes=self.axes(), to_axes=Axes.from_grid(grid))`
+      (the closed-form one-grid path, `conv`). -/
 def dispNonRigid (tg flowGrid grid : Grid d α) (n gridN : Fin d → Nat) (u : VField d α)
     (sameGrid sameFlowGrid : Bool) (rnd : Vec d α → Vec d α) (pad : Padding) (j : Fin d → Nat) : Vec d α :=
   let axes := transformAxes tg
   dispNonRigidWith tg.alignCorners grid.alignCorners n gridN u sameGrid sameFlowGrid
-    (grid.transformTo axes flowGrid axes false) (flowGrid.transformTo axes grid axes true) rnd pad j
+    (grid.transformTo axes flowGrid axes false) (flowGrid.transformTo axes grid axes true)
+    (grid.transformVectors axes (Axes.fromAlignCorners grid.alignCorners)) rnd pad j
 
 end views
 
@@ -400,6 +417,18 @@ def imageTransformerCoord (T : Vec d α → Vec d α) (tg tgt src : Grid d α) (
     (sameTT sameTS : Bool) (rnd : Vec d α → Vec d α) (j : Vec d α) : Vec d α :=
   imageTransformerCoordWith T tg.alignCorners tgtN (imageTransformerGridMap tg tgt sameTT)
     (sampleImageMatrix tg src sameTS) rnd j
+
+/-- transformer.py:ImageTransformer.forward @214-216: `self._transform(grid_coords, grid=self._grid_is_lattice)` —
+    the evaluation context of the point with target index `k`; `isLattice` is the flag computed at construction
+    @170-175 (`allclose(mapped target coordinates, Grid(shape=target.shape, align_corners=…).coords(), atol=1e-5)`). -/
+def imageTransformerLat (isLattice : Bool) (tgtN : Fin d → Nat) (k : Fin d → Nat) : Option (Lat d) :=
+  if isLattice then some ⟨tgtN, k⟩ else none
+
+/-- … for a transform given as a composite member. -/
+def imageTransformerMemberCoord (m : Member d α) (isLattice : Bool) (tg tgt src : Grid d α) (tgtN : Fin d → Nat)
+    (sameTT sameTS : Bool) (rnd : Vec d α → Vec d α) (k : Fin d → Nat) : Vec d α :=
+  imageTransformerCoord (m.forward (imageTransformerLat isLattice tgtN k)) tg tgt src tgtN sameTT sameTS rnd
+    (fun i => ((k i : Nat) : α))
 
 /-- the value `ImageTransformer` returns at target index `j` (linear interpolation; `pad` as configured). -/
 def imageTransformerValue (T : Vec d α → Vec d α) (tg tgt src : Grid d α) (srcN tgtN : Fin d → Nat)
